@@ -95,8 +95,25 @@ def evsOfRpc (kind client cls : String) (cmd ans : List String) : List Ev :=
         let isErr := ans.headD "" != "ok"
         let ttl := ((ans.getD 1 "").splitOn "=").getD 1 "0" |>.toNat? |>.getD 0
         let cts := ((ans.getD 2 "").splitOn "=").getD 1 "0" |>.toNat? |>.getD 0
-        [Ev.status client fate p lt cs cur (rb == "1") answered ttl cts isErr]
+        -- an async primary reports its min_commit_ts (token `mincommit=` after `async=1`)
+        let asyncMC : List Ev :=
+          if answered && ans.contains "async=1" then
+            match (ans.find? (·.startsWith "mincommit=")).bind (fun t => (t.drop 10).toString.toNat?) with
+            | some mcv => [Ev.secAnswer client lt [mcv] false 0]
+            | none => []
+          else []
+        [Ev.status client fate p lt cs cur (rb == "1") answered ttl cts isErr] ++ asyncMC
       | _, _, _, _ => []
+    | ["checksecondary", _ks, st] =>
+      match st.toNat? with
+      | some st =>
+        if answered && ans.headD "" == "ok" then
+          let locksTok := (ans.find? (·.startsWith "locks=")).map (fun t => (t.drop 6).toString) |>.getD "-"
+          let cts := (ans.find? (·.startsWith "commit=")).bind (fun t => (t.drop 7).toString.toNat?) |>.getD 0
+          let mcs := (splitList locksTok).filterMap fun l => ((l.splitOn ":").getD 1 "").toNat?
+          [Ev.secAnswer client st mcs (locksTok == "-") cts]
+        else []
+      | none => []
     | ["resolve", _, _, st, ct, infos, _keys] =>
       match st.toNat?, ct.toNat?, (tokVal "infos=" infos >>= parsePairs) with
       | some st, some ct, some infos => [Ev.resolve client fate st ct infos]
